@@ -4,10 +4,15 @@
 TV_NOTE = ("Assumes the harness, the driver's parsing/printing and the generators are right; bounded + random "
            "inputs only for the tie between model and code. ")
 
-P("C01", "translation_validation", "Lean model vs code differential + std::path oracle (theorems pending)",
-  "The Lean model of the Unix parser is compared with the real crate on every interleaving of front/back steps "
-  "over a bounded-exhaustive domain, and the implementation is compared with real std::path on the same inputs.",
-  TV_NOTE + "std::path of the pinned toolchain is the oracle.",
+P("C01", "proof", "Lean 4 refinement theorems (model = StdSpec, all interleavings) + model/code and StdSpec/std correspondence",
+  "Proved in Lean, for every byte string and every sequence of front/back steps: the model's forward components equal "
+  "StdSpec.comps (unix_front_all), every interleaving returns what std's double-ended iterator returns "
+  "(unix_interleave), after every step the remaining bytes re-parse to std's untouched middle (unix_remainder), and "
+  "has_root / is_absolute equal std's (unix_has_root). StdSpec (12 lines, split on '/') is compared with real std::path "
+  "on every run, and the model with the crate on all interleavings up to a bound.",
+  "Theorems are about the token-level model and the declarative StdSpec; model=code and StdSpec=std are validated by "
+  "differential testing on bounded-exhaustive + random inputs, not proved. std::path of the pinned toolchain is the reference.",
+  theorems=["TP.C01.unix_front_all", "TP.C01.unix_interleave", "TP.C01.unix_remainder", "TP.C01.unix_has_root"],
   rule=NONTRIV + "non-trivial = at least two components; distinct by (input, mask)", design_ref="§5 C01")
 
 P("C02", "translation_validation", "Lean model vs code differential + independent grammar oracle",
